@@ -245,8 +245,9 @@ def transplant(ovl_text, new_tokens, kind):
     marks = {}
     for j in range(len(new_tokens) + 1):
         for text, is_line in placed.get(j, []):
-            out_tokens.append("\x00%d" % len(marks))
-            marks["\x00%d" % len(marks)] = (text, is_line)
+            mk = "\x00%d\x01" % len(marks)
+            out_tokens.append(mk)
+            marks[mk] = (text, is_line)
         if j < len(new_tokens):
             out_tokens.append(new_tokens[j])
     # add pub
@@ -279,7 +280,10 @@ def transplant(ovl_text, new_tokens, kind):
         prev_code = x
     text = pretty(res)
     for m, (ann, is_line) in marks.items():
-        text = text.replace(m, ("\n" + ann + "\n") if is_line else (" " + ann + " "))
+        if is_line:
+            text = text.replace(m + " ", "\n" + ann + "\n").replace(m, "\n" + ann + "\n")
+        else:
+            text = text.replace(m, " " + ann + " ")
     return text
 
 
@@ -317,7 +321,7 @@ def build_unit(repo, overlay_path, out_path):
                 body = "\n".join("    " + l for l in body.split("\n"))
             report["changed"].append({"key": b["key"], "path": b["path"]})
         origin = {"kind": "item", "key": b["key"], "path": b["path"], "src_line": src_line, "ovl_line": b["line"],
-                  "changed": changed, "rules": fired}
+                  "changed": changed, "rules": fired, "emitted_owner": b["opts"].get("impl_header")}
         report["items"].append(origin)
         if wrap:
             hdr = owner if b["opts"].get("impl_header") is None else b["opts"]["impl_header"]
